@@ -41,14 +41,15 @@ register(NUMBA, "_group_by_reduce", "generic,indexer=None",
          specs=GBR_SPECS, props=("C01", "C04", "C06"))
 register(NUMBA, "_group_by_reduce", "generic,indexer=positions",
          {"group_key": "arr:int:int64", "values": "arr:opaque:V", "target": "arr:opaque:V", "reduce_func": "step:STEP", "indexer": "arr:int:int64", "check_in_bounds": "bool"},
-         {"requires": _GBR_REQ + ["forall(t, 0, len(indexer), indexer[t] >= -len(group_key))", "implies(not check_in_bounds, forall(t, 0, len(indexer), indexer[t] < len(group_key)))"],
+         # positions follow array indexing: [-n, n), negatives wrap; out-of-range positions raise when checked, and must not occur when the check is switched off
+         {"requires": _GBR_REQ + ["implies(not check_in_bounds, forall(t, 0, len(indexer), -len(group_key) <= indexer[t] and indexer[t] < len(group_key)))"],
           "frozen": ["group_key", "values", "indexer"], "nonneg_index": ["target", "count"],
-          "raises": "check_in_bounds and exists(t, 0, len(indexer), indexer[t] >= len(group_key))",
+          "raises": "check_in_bounds and exists(t, 0, len(indexer), indexer[t] >= len(group_key) or indexer[t] < -len(group_key))",
           "loops": {1: {"iter": "indexer", "invariant": ["forall(k, 0, len(target), same(target[k], FA(k, _it1)) and count[k] == FC(k, _it1))",
-                                                        "implies(check_in_bounds, forall(t, 0, _it1, indexer[t] < len(group_key)))"],
+                                                        "implies(check_in_bounds, forall(t, 0, _it1, -len(group_key) <= indexer[t] and indexer[t] < len(group_key)))"],
                         "unfold": [_unf("wrapn(indexer[_it1], len(group_key))", "_it1")]}},
           "ensures": ["forall(k, 0, len(target), same(result0[k], FA(k, len(indexer))) and result1[k] == FC(k, len(indexer)))"]},
-         specs=GBR_SPECS, props=("C01", "C04", "C05", "C06"))
+         specs=GBR_SPECS, props=("C01", "C04", "C05", "C06", "C18"))
 
 # ----------------------------------------------------------------------------- _find_nth (forward: n >= 0, backward: n < 0; mask / no mask)
 # Cnt(k, t): number of accepted rows (key == k and selected) of group k among the first t VISITED rows; row(t) = t forward, len-1-t backward.
@@ -257,7 +258,7 @@ for _wm in (True, False):
         register(NUMBA, "_rolling_max_or_min_1d", f"float,chunked,mask={'bool' if _m else 'None'},{'max' if _wm else 'min'},min_periods={'int' if _mp else 'None'}",
                  {"group_key": "arr:int:int64", "values": "chunks:float:float64", "ngroups": "int", "window": "int", "min_periods": "int" if _mp else "none", "mask": "arr:bool:bool" if _m else "none",
                   "null_value": "float", "want_max": f"const:{_wm}"}, _rmm_contract(_wm, _m, _mp), specs=_RMM_SPECS, setup=_late_chunkval, callees=_momp_callee(_wm),
-                 props=("C09", "C06", "C05", "C12"), lemma_deps=("L-nncount", "L-nnzero", "L-cnt-bound"))
+                 props=("C09", "C06", "C12") + (("C05",) if _m and _wm else ()), lemma_deps=("L-nncount", "L-nnzero", "L-cnt-bound"))
 
 # ----------------------------------------------------------------------------- EMA kernels (emas.py)
 # Specification (from the statement of C10, as the decayed-sum recursion; L-ema proves recursion == closed-form weighted mean):
